@@ -42,7 +42,7 @@ def functions():
 TRANSPORTS = ("default", "threaded", "mp", "pool")
 
 
-def mk(N, kinds, transports=TRANSPORTS, chunks=SC.CHUNKSIZES, excs=(0, 1, 2)):
+def mk(N, kinds, transports=TRANSPORTS, chunks=SC.CHUNKSIZES, excs=(0, 1, 2, 3)):
     def setup(e):
         spec = SC.gen_graph(e, N, kinds, sym_leaf=False)
         want, shape = SC.gen_request(e, N, allow_empty=False, shapes=(0, 1, 2))
@@ -122,7 +122,7 @@ def mk(N, kinds, transports=TRANSPORTS, chunks=SC.CHUNKSIZES, excs=(0, 1, 2)):
         from symx.core import NativeEngine
         ne = NativeEngine(model)
         spec, want, shape, fails, transport, rerun, nw, cs = setup(ne)
-        if any(c is SC.BaseBoom for c in fails.values()):
+        if any(c in (SC.BaseBoom, StopIteration) for c in fails.values()):
             return
         log = []
         dsk = SC.build(spec, log, fails)
